@@ -85,6 +85,35 @@ func init() {
 					})
 					return hit
 				}
+				// a decision made only for tags the view knows: `if _, ok := v.tagDetails[name]; ok { decide }` — for a name
+				// that is not in the table there is nothing to decide and nothing to read
+				tdFld := p.Field("manager", "View", "tagDetails")
+				presence := map[ast.Node]bool{}
+				inspectShallow(f.Body(), func(x ast.Node) bool {
+					ifs, ok := x.(*ast.IfStmt)
+					if !ok || ifs.Init == nil {
+						return true
+					}
+					as, ok := ifs.Init.(*ast.AssignStmt)
+					if !ok || len(as.Lhs) != 2 || len(as.Rhs) != 1 {
+						return true
+					}
+					ix, ok := ast.Unparen(as.Rhs[0]).(*ast.IndexExpr)
+					if !ok || tdFld == nil || !isFieldOf(info, ix.X, tdFld) {
+						return true
+					}
+					if identObj(info, ifs.Cond) == nil || identObj(info, ifs.Cond) != identObj(info, as.Lhs[1]) {
+						return true
+					}
+					for _, st := range ifs.Body.List {
+						if isDecide(st) {
+							presence[ifs.Cond] = true
+						}
+					}
+					return true
+				})
+				plainDecide := isDecide
+				isDecide = func(nd ast.Node) bool { return presence[nd] || plainDecide(nd) }
 				reads := fl.Find(isRead)
 				if len(reads) == 0 {
 					continue
